@@ -52,7 +52,7 @@ def main : IO Unit := do
     if ci.mustBeStatic then
       IO.println s!"collect\t\{\"head\": {q ci.selfTy.head}, \"file\": {q ci.file}, \"staticOk\": {jb ci.staticOk}}"
   for t in table.transmutesIn "dynamic_roots.rs" do
-    IO.println s!"transmute\t\{\"fn\": {q t.fn_}, \"operand\": {q t.operand}, \"introduces\": {jl (t.introduces.map q)}, \"guarded\": {jb t.guardedByContains}, \"rawOnly\": {jb t.rawOnly}, \"ok\": {jb t.ok}}"
+    IO.println s!"transmute\t\{\"fn\": {q t.fn_}, \"operand\": {q t.operand}, \"introduces\": {jl (t.introduces.map q)}, \"guarded\": {jb t.guardedByContains}, \"rawOnly\": {jb t.rawOnly}, \"ok\": {jb (table.transmuteOk t)}, \"blame\": {jl ((table.blameOf t).map q)}}"
   let k : Ty := .adt "GcKind" [] [.adt "Fat" [] [], .tuple [], .adt "UnitPtrMeta" [] []]
   let payloads : List (String × Ty) := [
     ("gc", .adt "Gc" [.named "x"] [.prim "i32", k]),
